@@ -192,6 +192,8 @@ def item_call(lib, ex, base, name, args, kw, st, node):
     if name == "add_item":
         x = args[0].val if isinstance(args[0], VOpt) else args[0]
         s.ghost.setdefault("packed", []).append((x.t, base.t, node.lineno))
+        if "__pallet_items" in s.f:
+            s.f["__pallet_items"] = V.list_append(s.f["__pallet_items"], x)
         return [(NONE, s)]
     raise Unsupported("item.%s() (line %d)" % (name, node.lineno))
 
@@ -285,7 +287,10 @@ def call_env(lib, ex, name, args, kw, st, node):
             d = Num(d.num)
         d = V.as_num(d)
         ex.ctx.oblige("call.timeout.delay-nonneg@L%d" % node.lineno, st, [d.t >= 0], "call-pre", node.lineno, ("C20",))
-        return [(VTimeout(d), st)]
+        tv = VTimeout(d)
+        tv.segment = len(st.ghost.get("waits", []))      # the clock of a timeout starts when it is created
+        tv.epoch_at_creation = st.ghost.get("seg_id", 0)
+        return [(tv, st)]
     if name == "any_of":
         lst = ex.deref(args[0], st)
         if isinstance(lst, VPyList):
@@ -397,6 +402,11 @@ class Yields:
         result = NONE
         # ---- what the process waits for
         if isinstance(value, VTimeout):
+            # a delay must be awaited in the atomic segment that created the timeout, otherwise part of it elapses
+            # while the process is busy or waiting for something else (C08, C11)
+            ctx.oblige("yield%d.timeout-awaited-as-soon-as-created@L%d" % (ordinal, lineno), st,
+                       [z3.BoolVal(getattr(value, "epoch_at_creation", None) == st.ghost.get("seg_id", 0))], "yield", lineno,
+                       ("C08",))
             s.now = st.now + value.delay.t
             waited = value.delay.t > 0
         elif isinstance(value, VObj) and value.kind == "event":
@@ -466,6 +476,7 @@ class Yields:
             s.ghost["slots"] = [h for h in held if not h.eq(value.t)]
             s.ghost["released"] = True
         s.ghost.setdefault("waits", []).append((lineno, waited, type(value).__name__))
+        s.ghost["seg_id"] = s.ghost.get("seg_id", 0) + 1
         s.ghost["last_resume"] = dict(s.f)
         rel = getattr(self.con, "rely", None)
         if rel:
